@@ -206,6 +206,117 @@ theorem C13_matcher_key_fact :
     Thanos.Facts.matcherKeyNameLen = "strconv.Itoa(len(m.GetName()))" := by
   decide
 
+/-! ### the in-flight key of the matchers cache (singleflight) -/
+
+/-- every entry of the LRU cache was stored under the key of its own matcher -/
+def MHonest (lruKey : Matcher → Str) (c : MCache) : Prop := ∀ k x, c.lookup k = some x → k = lruKey x
+
+private theorem lookup_filter_ne (c : MCache) (k k' : Str) (x : Matcher)
+    (h : (c.filter fun e => e.1 != k).lookup k' = some x) : c.lookup k' = some x := by
+  induction c with
+  | nil => simp at h
+  | cons e rest ih =>
+    obtain ⟨ek, ex⟩ := e
+    by_cases hk : ek = k
+    · subst hk
+      have hf : (((ek, ex) :: rest).filter fun e => e.1 != ek) = rest.filter fun e => e.1 != ek := by
+        simp [List.filter]
+      rw [hf] at h
+      have hr := ih h
+      -- k' cannot be ek: the filtered list has no entry with that key
+      by_cases hk' : k' = ek
+      · subst hk'
+        exfalso
+        clear ih hr hf
+        induction rest with
+        | nil => simp at h
+        | cons e2 r2 ih2 =>
+          obtain ⟨e2k, e2x⟩ := e2
+          by_cases h2 : e2k = k'
+          · subst h2
+            have : (((e2k, e2x) :: r2).filter fun e => e.1 != e2k) = r2.filter fun e => e.1 != e2k := by
+              simp [List.filter]
+            rw [this] at h; exact ih2 h
+          · have hne : (e2k != k') = true := by simpa using h2
+            have : (((e2k, e2x) :: r2).filter fun e => e.1 != k') = (e2k, e2x) :: r2.filter fun e => e.1 != k' := by
+              simp [List.filter, hne]
+            rw [this] at h
+            have hb : (k' == e2k) = false := by simpa using fun hh : k' = e2k => h2 hh.symm
+            simp only [List.lookup, hb] at h
+            exact ih2 h
+      · have hb : (k' == ek) = false := by simpa using hk'
+        simp only [List.lookup, hb]; exact hr
+    · have hne : (ek != k) = true := by simpa using hk
+      have hf : (((ek, ex) :: rest).filter fun e => e.1 != k) = (ek, ex) :: rest.filter fun e => e.1 != k := by
+        simp [List.filter, hne]
+      rw [hf] at h
+      by_cases hb : (k' == ek) = true
+      · simp only [List.lookup, hb] at h ⊢; exact h
+      · have hb' : (k' == ek) = false := by simpa using hb
+        simp only [List.lookup, hb'] at h ⊢; exact ih h
+
+/-- C13 for everything that makes two lookups of the matchers cache share a result: if the LRU key
+    and the singleflight key are both injective, then in every history of flights (any overlap of
+    callers, any evictions) every caller is answered with the conversion of its own matcher. -/
+theorem C13_inflight_of_injective (lruKey sfKey : Matcher → Str)
+    (hl : ∀ a b, lruKey a = lruKey b → a = b) (hs : ∀ a b, sfKey a = sfKey b → a = b) :
+    ∀ (es : List MEvent) (c : MCache), MHonest lruKey c → FlightsOK sfKey es →
+      ∀ p ∈ runFlights lruKey c es, p.2 = p.1 := by
+  intro es
+  induction es with
+  | nil => intro c _ _ p hp; simp [runFlights] at hp
+  | cons e es ih =>
+    intro c hc hok p hp
+    cases e with
+    | evict k =>
+      simp only [runFlights] at hp
+      exact ih _ (fun k' x h => hc k' x (lookup_filter_ne c k k' x h)) hok p hp
+    | flight l fs =>
+      simp only [FlightsOK] at hok
+      simp only [runFlights, List.mem_append] at hp
+      -- what the leader computes is the leader's own matcher, and the cache stays honest
+      have hres : (leaderResult lruKey c l).1 = l ∧ MHonest lruKey (leaderResult lruKey c l).2 := by
+        unfold leaderResult
+        cases hlk : c.lookup (lruKey l) with
+        | some x => exact ⟨(hl _ _ (hc _ x hlk)).symm, hc⟩
+        | none =>
+          refine ⟨rfl, ?_⟩
+          intro k x hk
+          by_cases hb : (k == lruKey l) = true
+          · simp only [List.lookup, hb, Option.some.injEq] at hk
+            subst hk; simpa using hb
+          · have hb' : (k == lruKey l) = false := by simpa using hb
+            simp only [List.lookup, hb'] at hk
+            exact hc k x hk
+      rcases hp with hp | hp
+      · simp only [flight, List.mem_map] at hp
+        obtain ⟨m, hm, rfl⟩ := hp
+        simp only [hres.1]
+        rcases List.mem_cons.mp hm with rfl | hm
+        · rfl
+        · exact (hs _ _ (hok.1 m hm)).symm
+      · exact ih _ hres.2 hok.2 p hp
+
+/-- the code as it is: both keys are `cacheKey(m)` (fact below), which is injective -/
+theorem C13_inflight (es : List MEvent) (h : FlightsOK matcherKey es) :
+    ∀ p ∈ runFlights matcherKey [] es, p.2 = p.1 :=
+  C13_inflight_of_injective matcherKey matcherKey C13_matcher C13_matcher es []
+    (fun k x hk => by simp at hk) h
+
+/-- a singleflight key that is only the value string ("one compilation per pattern") is wrong
+    although the LRU key is untouched: `a=~"x"` and `b!~"x"` missing the cache at the same time
+    share one flight, and the second caller gets the first caller's matcher -/
+theorem C13_inflight_value_false :
+    ∃ es, FlightsOK (fun m => m.value) es ∧ ∃ p ∈ runFlights matcherKey [] es, p.2 ≠ p.1 :=
+  ⟨[.flight ⟨.re, [97], [120]⟩ [⟨.nre, [98], [120]⟩]], by simp [FlightsOK],
+   (⟨.nre, [98], [120]⟩, ⟨.re, [97], [120]⟩), by simp [runFlights, flight, leaderResult], by decide⟩
+
+/-- regenerated fact: in GetOrSet the key is `cacheKey(m)`, and that same `key` is the argument of
+    the singleflight call and of every LRU access, in this order -/
+theorem C13_matcher_sharing_fact :
+    Thanos.Facts.matcherSharingKeys =
+      ["key=cacheKey(m)", "c.sf.Do(key)", "c.cache.Get(key)", "c.cache.Add(key)"] := by decide
+
 /-! ### non-vacuity -/
 
 -- the hypotheses on hash/quote are satisfiable (so `C13_index_partial` is not vacuous) …
